@@ -1,11 +1,14 @@
 /-
   C12 — A full scan returns every stable key exactly once and nothing else (storage-engine part).
-  Statements about Store/Model.lean; the client iterator is covered by the `iter` stream only.
+  Statements about Store/Model.lean, and (C12_client_iterator) about how the client iterator combines the pages of
+  the owners of a partition (Cluster/Iterator.lean).
 -/
 import OlricModel.Proofs.ScanLemmas
 import OlricModel.Proofs.KVErase
 import OlricModel.Proofs.KVScanInv
 import OlricModel.Props.C11
+import OlricModel.Proofs.IterProofs
+import OlricModel.Generated.Facts
 namespace Olric.C12
 open Olric KV Table
 
@@ -171,7 +174,37 @@ theorem C12_full_walk_complete_sound (k : KV) (w : k.WF) (si : k.ScanInv) (hT : 
     obtain ⟨hp1, hp2⟩ := List.mem_filter.mp hpm
     exact ⟨p.1, p.2, (hr p.1 p.2).mp hp1, hp2, rfl⟩
 
+/-- **C12 (client iterator, one partition).**  For every set of owners on the iterator's route (primary owners, previous
+    ones included, then replica owners) and whatever pages they answer until their cursor comes back 0: the iterator
+    fetches every page of every owner exactly once and stops (`schedule_perm`: the fetched pages are a permutation of all
+    pages, with the fuel the page count gives), hands out no key twice, and hands out exactly the keys that occur in some
+    page of some owner.  With C12_full_walk_complete_sound for the pages of one owner: every key present on some listed
+    owner during the whole iteration is yielded exactly once, and nothing else. -/
+theorem C12_client_iterator {α : Type} [DecidableEq α] (os : List (List (List α))) (hne : ∀ o ∈ os, o ≠ []) :
+    (Iter.iterate os).Nodup ∧ (∀ k, k ∈ Iter.iterate os ↔ ∃ o ∈ os, ∃ p ∈ o, k ∈ p) ∧
+    (Iter.schedule (Iter.total os + 1) os).Perm os.flatten := by
+  have hp := Iter.schedule_perm (Iter.total os + 1) os hne (Nat.lt_succ_self _)
+  refine ⟨Iter.foldl_emit_nodup _ [] List.nodup_nil, ?_, hp⟩
+  intro k
+  unfold Iter.iterate
+  rw [Iter.mem_foldl_emit]
+  constructor
+  · rintro (h | ⟨p, hp', hk⟩)
+    · cases h
+    · obtain ⟨o, ho, hpo⟩ := List.mem_flatten.mp (hp.mem_iff.mp hp')
+      exact ⟨o, ho, p, hpo, hk⟩
+  · rintro ⟨o, ho, p, hpo, hk⟩
+    exact Or.inr ⟨p, hp.mem_iff.mpr (List.mem_flatten.mpr ⟨o, ho, hpo⟩), hk⟩
+
+/-- the shape `Iter.schedule` / `Iter.emit` follow, regenerated from cluster_iterator.go and embedded_iterator.go on every run -/
+theorem facts_tie : Facts.client_iterator_walks_remaining_owners_once = true := by decide
+
 /-! Non-vacuity -/
+/-- a previous owner with one page, the current owner with three (COUNT 1: a new key, the overwritten old key, a new
+    key - the shape of F47), a replica owner with an empty page: four distinct keys, each once -/
+example : Iter.iterate [[[1]], [[2], [1], [3]], [[]], [[1, 2], [3, 4]]] = [1, 2, 3, 4] := by decide
+example : ∀ o ∈ ([[[1]], [[2], [1], [3]], [[]], [[1, 2], [3, 4]]] : List (List (List Nat))), o ≠ [] := by decide
+
 example : walkTable (fun _ => true)
     [⟨1, 0, C11.recA⟩, ⟨2, 40, C11.recA⟩, ⟨3, 90, C11.recA⟩] 2 4 0 =
     [⟨1, 0, C11.recA⟩, ⟨2, 40, C11.recA⟩, ⟨3, 90, C11.recA⟩] := by decide
